@@ -24,7 +24,9 @@ TRAITS = [
     {"name": "Td", "methods": [{"name": "dup", "recv": "ref", "args": [], "ret": "cont"},
                                {"name": "cb", "recv": "ref", "args": ["cbPt", "u64"], "ret": "void"}]},
     # callback of a primitive element
-    {"name": "Te", "methods": [{"name": "cbn", "recv": "mut", "args": ["cbu64"], "ret": "u64"}]},
+    {"name": "Te", "methods": [{"name": "cbn", "recv": "mut", "args": ["cbu64"], "ret": "u64"},
+                               # a function-pointer argument: its name sits inside the declarator
+                               {"name": "reg", "recv": "ref", "args": ["fnptr", "u64"], "ret": "u64"}]},
 ]
 
 
